@@ -419,7 +419,7 @@ fn check_init<E: Pay>(
     Ok(())
 }
 
-pub const SIZED_PATHS: usize = 10;
+pub const SIZED_PATHS: usize = 11;
 
 pub fn sized_case<P: Pay>(path: usize, st: &mut UStats) -> R {
     let what = format!("P={} path=V{}", P::NAME, path);
@@ -571,6 +571,49 @@ pub fn sized_case<P: Pay>(path: usize, st: &mut UStats) -> R {
                 Co::R(p) => drop(unsafe { Arc::from_raw(p) }),
             });
             let b: Arc<P> = unsafe { a.assume_init() };
+            shadow::tracked(|| drop(b));
+        }
+        10 => {
+            // assume_init on a *shared* (fully initialised) handle: the type changes, allocation / contents / count do not
+            let mut a: Arc<MaybeUninit<P>> = shadow::tracked(|| Arc::new_uninit());
+            let v = shadow::tracked(|| P::make(7));
+            let id = v.id();
+            Arc::get_mut(&mut a).unwrap().write(v);
+            let heap = a.heap_ptr() as usize;
+            let keep = shadow::tracked(|| a.clone());
+            let keep_off = shadow::tracked(|| Arc::into_raw_offset(a.clone()));
+            let r = shadow::tracked(|| catch(|| unsafe { a.assume_init() }));
+            let b: Arc<P> = match r {
+                Ok(b) => b,
+                Err(m) => {
+                    return viol(
+                        "C15,C04",
+                        "uninit",
+                        format!("{}: assume_init of a shared, initialised Arc<MaybeUninit<T>> panicked: {}", what, m),
+                    )
+                }
+            };
+            ensure!(
+                b.heap_ptr() as usize == heap && Arc::count(&b) == 3 && Arc::count(&keep) == 3 && OffsetArc::strong_count(&keep_off) == 3,
+                "C15,C04",
+                "uninit",
+                "{}: assume_init on a shared handle changed the allocation or the count ({} / {} with 3 owners)",
+                what,
+                Arc::count(&b),
+                Arc::count(&keep)
+            );
+            ensure!(
+                b.check().is_ok() && b.id() == id,
+                "C15",
+                "uninit",
+                "{}: assume_init on a shared handle changed the contents",
+                what
+            );
+            shadow::tracked(|| {
+                drop(keep);
+                drop(keep_off);
+            });
+            ensure!(Arc::count(&b) == 1 && b.check().is_ok(), "C15,C04,C01", "uninit", "{}: after the uninitialised-typed co-owners let go the value is damaged or the count is {}", what, Arc::count(&b));
             shadow::tracked(|| drop(b));
         }
         _ => {
